@@ -167,4 +167,98 @@ theorem cleanAt_spec (h : Heap) (hw : h.WF) (t : Nat) (old : HVal) (vOld : V) (F
       | none => rw [hc'] at hsk2; cases c <;> simp [SameKind] at hsk2
       | some c' => rw [hc'] at hsk2; cases c <;> cases c' <;> simp_all [SameKind, IsValCell]
 
+theorem SameKind_trans {a b c : Option Cell} (h1 : SameKind a b) (h2 : SameKind b c) : SameKind a c := by
+  cases a <;> cases b <;> cases c <;> try (simp [SameKind] at h1 h2 ⊢)
+  rename_i x y z
+  cases x <;> cases y <;> cases z <;> simp_all [SameKind]
+
+theorem putHV_spec (g : Heap) (t : Nat) (hv : HVal) (hval : IsValCell (g.cell t)) :
+    ∃ g', putHV g t hv = some g' ∧ g'.next = g.next ∧ getHV g' t = some hv ∧ SameKind (g.cell t) (g'.cell t)
+      ∧ (∀ a, a ≠ t → g'.cell a = g.cell a) ∧ (g.WF → g'.WF) := by
+  obtain ⟨ct, ct', hc0, hrs, hsk, hfld⟩ := reShell_val hval hv
+  obtain ⟨g', hwr, hn, hc⟩ := write_spec g t ct ct' hc0
+  refine ⟨g', by simp [putHV, hc0, hrs, hwr], hn, hfld g' t (by rw [hc t, if_pos rfl]), by rw [hc t, if_pos rfl]; exact hsk,
+    fun a hne => by rw [hc a, if_neg hne], ?_⟩
+  intro hw a ha
+  rw [hc a]
+  have hne : a ≠ t := fun e => by
+    subst e
+    have := hw a (by rw [hn] at ha; exact ha)
+    rw [hc0] at this; cases this
+  rw [if_neg hne]; exact hw a (by rw [hn] at ha; exact ha)
+
+theorem ObjUpd.dead {h h' : Heap} {t : Nat} {Ft : List Nat} {hv : HVal} {c : V} {Ft' : List Nat}
+    (U : ObjUpd h h' t Ft hv c Ft' []) (a : Nat) (ha : a ∈ Ft) (hnot : a ∉ Ft') (hne : a ≠ t) : h'.cell a = none := by
+  cases hc : h'.cell a with
+  | none => rfl
+  | some c' =>
+    rcases U.cov a (by rw [hc]; rfl) with h1 | h1 | h1 | ⟨_, h1⟩
+    · exact absurd h1 hnot
+    · exact absurd h1 hne
+    · cases h1
+    · exact absurd ha h1
+
+/-- the default content `cif_value_init` gives a cleaned object -/
+theorem initFields_spec (h : Heap) (hw : h.WF) (kind : Nat) (hv : HVal) (h2 : Heap) (hb : initFields h kind = (hv, h2)) :
+    Ext h h2 ∧ ∃ Fn, Rep h2 hv ((defaultOf kind).getD .unk) Fn ∧ (∀ a, a ∈ Fn → h.next ≤ a ∧ a < h2.next)
+      ∧ (∀ a, h.next ≤ a → a < h2.next → a ∈ Fn) := by
+  unfold initFields at hb
+  by_cases h2' : kind = 2
+  · subst h2'
+    simp only [if_true, Prod.mk.injEq] at hb
+    obtain ⟨rfl, rfl⟩ := hb
+    exact ⟨Ext.refl h hw, [], by simp [defaultOf, Rep], by simp, fun a h1 h2 => by omega⟩
+  · by_cases h3 : kind = 3
+    · subst h3
+      simp only [if_true, Prod.mk.injEq] at hb
+      simp only [show ¬ (3 = 2) by decide, if_false] at hb
+      obtain ⟨rfl, rfl⟩ := hb
+      exact ⟨Ext.refl h hw, [], by simp [defaultOf, Rep, RepEntries], by simp, fun a h1 h2 => by omega⟩
+    · simp only [h2', h3, if_false] at hb
+      cases hd : defaultOf kind with
+      | none =>
+        rw [hd] at hb
+        simp only [Prod.mk.injEq] at hb
+        obtain ⟨rfl, rfl⟩ := hb
+        exact ⟨Ext.refl h hw, [], by simp [Rep], by simp, fun a h1 h2 => by omega⟩
+      | some d =>
+        rw [hd] at hb
+        simp only [] at hb
+        obtain ⟨e, Fn, hr, hrange, hcover⟩ := buildVal_spec d h hw hv h2 hb
+        exact ⟨e, Fn, by simpa using hr, hrange, hcover⟩
+
+/-- `cif_value_init(v, kind)`, kind ≠ NUMB: the object is cleaned, then given the default content of the kind (an invalid
+    kind leaves the unknown value) -/
+theorem cleanInitAt_spec (h : Heap) (hw : h.WF) (t : Nat) (old : HVal) (vOld : V) (Ft : List Nat) (fuel : Nat)
+    (hg : getHV h t = some old) (hval : IsValCell (h.cell t)) (hr : Rep h old vOld Ft) (htF : t ∉ Ft)
+    (hF : ∀ x, x ∈ Ft → x < h.next) (hfuel : need vOld ≤ fuel) (kind : Nat) :
+    ∃ h' new Fn, cleanInitAt fuel h t kind = some h' ∧ ObjUpd h h' t Ft new ((defaultOf kind).getD .unk) Fn [] := by
+  obtain ⟨h1, hin, U1, hn1, hval1⟩ := cleanAt_spec h hw t old vOld Ft fuel hg hval hr htF hF hfuel
+  have htlt := getHV_lt hw hg
+  generalize hb : initFields h1 kind = r
+  obtain ⟨new, h2⟩ := r
+  obtain ⟨e2, Fn, hrn, hrange, hcover⟩ := initFields_spec h1 U1.wf kind new h2 hb
+  have hct2 : h2.cell t = h1.cell t := e2.frame t (by rw [hn1]; exact htlt)
+  obtain ⟨h3, hput, hn3, hg3, hsk3, hc3, hw3⟩ := putHV_spec h2 t new (by rw [hct2]; exact hval1)
+  refine ⟨h3, new, Fn, by simp [cleanInitAt, hin, hb, hput], ?_⟩
+  apply ObjUpd.ofFresh
+  · exact hw3 e2.wf
+  · rw [hn3, ← hn1]; exact e2.le
+  · exact hg3
+  · exact SameKind_trans U1.kind (by rw [← hct2]; exact hsk3)
+  · apply Rep_congr h2 h3 _ new Fn _ hrn
+    intro a ha
+    have := hrange a ha
+    exact hc3 a (by omega)
+  · intro a ha; have := hrange a ha; rw [hn3]; omega
+  · intro a hlt hne
+    rw [hc3 a hne, e2.frame a (by rw [hn1]; exact hlt)]
+    by_cases hm : a ∈ Ft
+    · rw [if_pos hm]; exact U1.dead a hm (by simp) hne
+    · rw [if_neg hm]; exact U1.frame a hlt hm hne
+  · intro a hge hl
+    have hne : a ≠ t := by omega
+    rw [hc3 a hne] at hl
+    exact hcover a (by rw [hn1]; exact hge) (isSome_lt e2.wf hl)
+
 end CifModel.Model.Hist
